@@ -30,7 +30,8 @@ FirstSegmentAlone(e) == LET a == AckdNext(e) IN
                         /\ (~a.sc => SegsIn(tx', "CR") <= 1)
 
 Act(e) ==
-    CASE e.ev = "Submit"     -> Submit /\ Emit0 /\ act' = [n |-> "Submit", i |-> 0]
+    CASE e.ev = "Submit"     -> (IF Traces[tid].refused THEN \E r \in LocalRefusals : SubmitRefused(r) ELSE Submit)
+                                /\ Emit0 /\ act' = [n |-> "Submit", i |-> 0]
       [] e.ev = "Deliver"    -> Deliver(e.i)
       [] e.ev = "Drop"       -> Drop(e.i)
       [] e.ev = "Dup"        -> Dup(e.i)
@@ -120,6 +121,7 @@ Step ==
 
 \* end of trace: the run ended because nothing was left to do -- or it is reported as not terminated
 Final == IF T[Len(T)].ev = "Livelock" THEN {"Terminates"}
+         ELSE IF Traces[tid].refused /\ Len(T) = 1 /\ Len(cOut) = 1 /\ net = <<>> THEN {}
          ELSE (IF Quiescent THEN {} ELSE {"NotQuiescentAtEnd"})
 Done ==
     /\ l = Len(T) + 1
